@@ -446,3 +446,145 @@ func init() {
 		Assumptions: []string{"tolerances of DESIGN 4.4: total weight within 1e-9*W, slivers below 1e-9*W ignored, rank window slack 1e-6*(W+1)", "values are kept at least a factor 1e3 inside both mappings' ranges after scaling; collapsed (folded) sources are not converted", "the data is sampled"},
 	})
 }
+
+// twoWorlds builds a property whose runs alternate between the sketch
+// pipeline (two thirds) and the store bench (one third).
+func twoWorlds(fleet, store func(r *engine.PRNG, run int, tier string) *engine.Plan) (func(r *engine.PRNG, run int, tier string) *engine.Plan, func(p *engine.Plan, st *engine.Stats) *engine.Violation, func(p *engine.Plan) bool) {
+	gen := func(r *engine.PRNG, run int, tier string) *engine.Plan {
+		if run%3 == 2 {
+			p := store(r, run, tier)
+			p.World = "store"
+			return p
+		}
+		p := fleet(r, run, tier)
+		p.World = "fleet"
+		return p
+	}
+	exec := func(p *engine.Plan, st *engine.Stats) *engine.Violation {
+		if p.World == "store" {
+			return ExecStoreWorld(p, st)
+		}
+		return ExecFleet(p, st)
+	}
+	nt := func(p *engine.Plan) bool {
+		if p.World == "store" {
+			return nonTrivialStore(p)
+		}
+		return nonTrivialFleet(3)(p)
+	}
+	return gen, exec, nt
+}
+
+// weightlessAdder is the C10 actor offering refused and weightless values.
+func weightlessAdder(g *fleetGen) {
+	r := g.r
+	left := r.Range(0, 6)
+	var act func()
+	act = func() {
+		if left <= 0 {
+			return
+		}
+		left--
+		n := g.nodes[r.Intn(len(g.nodes))]
+		maxv := n.m.MaxIndexableValue()
+		v := []float64{math.NaN(), math.Inf(1), -maxv * 2, 1, -5, g.value(n)}[r.Intn(6)]
+		w := []float64{0, 0, 1, 2, -1}[r.Intn(5)]
+		g.emit(engine.Event{Ev: "badadd", N: n.id, V: engine.F64(v), W: engine.F64(w)})
+		g.q.After(int64(r.Range(1, 1500)), act)
+	}
+	g.q.After(int64(r.Range(0, 800)), act)
+}
+
+func init() {
+	engine.Register(&engine.Prop{
+		ID: "C02", Level: "exploration", World: "fleet",
+		QuickRuns: 8000, ThoroughRuns: 800000,
+		Generate: GenFleet(&fleetProfile{prop: "C02", stores: plainKinds, roles: []string{"sketch"}, minNodes: 2, maxNodes: 8, shareMap: true,
+			weights: []string{"unit", "unit", "int"}, valueSigns: []string{"pos", "neg", "mixed", "zeros"},
+			ops:   map[string]int{"add": 35, "addw": 5, "burst": 8, "merge": 25, "copy": 2, "clear": 4, "send": 12, "query": 3},
+			forms: []string{"bin", "binomit"}, modes: []string{"merge", "fresh"}, queryEvery: 0, maxOps: 150}),
+		Execute:    ExecFleet,
+		NonTrivial: nonTrivialFleet(3, "merge"),
+		Rule:       "seeded fleet simulations: the input stream is partitioned over 2-8 agents with any mix of non-collapsing stores sharing a mapping, merged in-process and over the wire in whatever order and tree shape the schedule produces (re-ordered, duplicated, into empty and cleared receivers); after every merge and at quiescence the receiver is compared with a single real sketch fed the whole input one value at a time; " + distinctRule + "; non-trivial = at least 3 mutations and a merge",
+		Real:       realFleetComponents, Stub: stubFleetComponents,
+		Assumptions: []string{"the single copy S* is itself a real sketch (the statement is differential); its store kind varies with the event number", exactAssumption, sampleAssumption},
+	})
+	engine.Register(&engine.Prop{
+		ID: "C10", Level: "exploration", World: "fleet",
+		QuickRuns: 10000, ThoroughRuns: 1000000,
+		Generate: GenFleet(&fleetProfile{prop: "C10", stores: allKinds, roles: []string{"exact", "exact", "exact", "sketch"}, minNodes: 1, maxNodes: 4, shareMap: true,
+			weights: []string{"unit", "int", "frac", "wide"}, valueSigns: []string{"pos", "neg", "mixed", "zeros"}, moderate: true,
+			ops:   map[string]int{"add": 30, "addw": 20, "burst": 4, "merge": 10, "copy": 4, "clear": 4, "reweight": 5, "send": 10, "query": 6, "chmap": 5},
+			forms: []string{"bin", "binomit"}, modes: []string{"merge", "fresh", "reuse"}, queryEvery: 5, maxOps: 100, extra: weightlessAdder}),
+		Execute:    ExecFleet,
+		NonTrivial: nonTrivialFleet(3),
+		Rule:       "seeded pipeline simulations of sketches with exact summary statistics through additions (incl. weight 0 and refused values), merges, copies, clears, re-weightings, unit changes and encode/decode hops, the statistics being compared with exact arithmetic after every event; " + distinctRule + "; non-trivial = at least 3 mutations",
+		Real:       realFleetComponents, Stub: stubFleetComponents,
+		Assumptions: []string{"sum tolerance 32*2^-53*sum|v*w| (x4 after a unit change)", "quantile == clamp(plain answer) only in the exact weight regime; after a unit change only 'inside [min,max]' (DESIGN 4.7)", sampleAssumption},
+	})
+	for _, id := range []string{"C14", "C15", "C16"} {
+		id := id
+		ops := map[string]int{"add": 30, "addw": 15, "burst": 5, "merge": 8, "copy": 3, "clear": 4, "reweight": 3, "send": 8, "query": 8}
+		rule := ""
+		switch id {
+		case "C14":
+			ops["query"], ops["send"], ops["copy"], ops["chmap"] = 30, 14, 8, 3
+			rule = "every run executes its mutation sequence on two replicas: R receives the planned read-only events (queries of every kind, serialisation in every form, copies, being a merge or mapping-change argument) at densities from none to several per mutation, Q receives none and is first read at the end of the run, when both must answer identically; every read is bracketed by snapshots; after a copy every mutation of one side is bracketed by snapshots of the other"
+		case "C15":
+			ops["clear"] = 12
+			rule = "at every clear a freshly constructed twin is created and receives the same subsequent events; after every event the cleared, re-used object and the twin must answer every observer identically (the model is not consulted); decoding into cleared, re-used stores is compared with decoding into new ones"
+		case "C16":
+			ops["reweight"] = 14
+			rule = "every Reweight (dyadic factors 2^-8..2^8 inside the exactness budget, applied to states reached by any history) is bracketed by snapshots: every bin on both sides, the zero weight and the count must be exactly the factor times their previous value, no bin may appear or disappear, exact sum scales, exact extremes stay"
+		}
+		gen, exec, nt := twoWorlds(GenFleet(&fleetProfile{prop: id, stores: allKinds, roles: []string{"sketch", "sketch", "exact"}, minNodes: 1, maxNodes: 3, shareMap: true,
+			weights: []string{"unit", "int", "frac"}, valueSigns: []string{"pos", "neg", "mixed", "zeros"}, moderate: id == "C14",
+			ops: ops, forms: []string{"bin", "binomit", "pb", "pbstream"}, modes: []string{"merge", "fresh", "reuse"}, queryEvery: map[string]int{"C14": 35, "C15": 0, "C16": 0}[id], maxOps: 120}), GenStoreWorld(id))
+		engine.Register(&engine.Prop{
+			ID: id, Level: "exploration", World: "fleet+store",
+			QuickRuns: 9000, ThoroughRuns: 900000,
+			Generate: gen, Execute: exec, NonTrivial: nt,
+			Rule: "seeded simulations, two thirds in the sketch pipeline and one third on the store bench; " + rule + "; " + distinctRule + "; non-trivial = at least 3 mutations (and an interaction on the store bench)",
+			Real: realFleetComponents, Stub: stubFleetComponents,
+			Assumptions: []string{"oracles compare real objects with real objects (replica, twin, own earlier snapshot): a defect shared by both sides is another property's business", exactAssumption, sampleAssumption},
+		})
+	}
+}
+
+func init() {
+	engine.Register(&engine.Prop{
+		ID: "C18", Level: "fault_enumeration", World: "codec",
+		QuickRuns: 10000, ThoroughRuns: 1500000,
+		Generate: GenCodecWorld, Execute: ExecCodecWorld,
+		NonTrivial: func(p *engine.Plan) bool { return len(p.Events) >= 2 },
+		Rule: "a writer appends a seeded sequence of typed records (uvarint, varint, varfloat, float64LE, flag; every bit-length class, 2^k+-d, extremes, all float classes) to one buffer; the stream is then cut at EVERY byte: the reader must return exactly the complete records, then io.EOF without consuming anything; arbitrary byte strings (exhaustively up to length 2 every 400th run, seeded up to length 12) are fed to every decoder and compared with the documentation codec; " +
+			"distinct = distinct sequence of record kinds; non-trivial = at least 2 events",
+		Real:        []string{"ddsketch/encoding (all primitive codecs, size functions, flags: real code)"},
+		Stub:        []string{"writer, reader and buffer pool; stream cut at every byte; byte-string feeder", "DocCodec primitives (independent implementation from the doc comments, math/big)"},
+		Assumptions: []string{"the exact round trip is a pure function of one value: the record values are sampled; the simulator contributes the stream, the framing and the exhaustive cuts", "NaN payloads: varfloat compares NaN with NaN, float64LE compares bit patterns"},
+		Extra: func(st *engine.Stats) map[string]interface{} {
+			return map[string]interface{}{"exhaustive_per_case": true, "faults_enumerated": st.Probes["stream-cuts-enumerated"], "exhaustive_byte_string_sweeps": st.Probes["exhaustive-up-to-length-2"]}
+		},
+	})
+	engine.Register(&engine.Prop{
+		ID: "C20", Level: "exploration", World: "dataset",
+		QuickRuns: 20000, ThoroughRuns: 2000000,
+		Generate: GenDatasetWorld, Execute: ExecDatasetWorld,
+		NonTrivial: func(p *engine.Plan) bool {
+			adds, q := 0, false
+			for _, e := range p.Events {
+				if e.Ev == "add" {
+					adds++
+				}
+				if e.Ev == "query" || e.Ev == "merge" {
+					q = true
+				}
+			}
+			return adds >= 2 && q
+		},
+		Rule:        "seeded simulations of 1-3 datasets with adder, reader and merger actors (queries interleaved with additions at every density); every answer is compared with a sorted-slice model using exact rank arithmetic; at quiescence each dataset is rebuilt from a permutation of its multiset without interleaved queries and must answer identically; distinct = distinct schedule signature; non-trivial = at least 2 additions and a query or merge",
+		Real:        []string{"dataset.Dataset (real code)", "ddsketch/stat (compensated sum used by Dataset.Sum)"},
+		Stub:        []string{"adder, reader and merger actors with think times"},
+		Assumptions: []string{"finite values only (NaN and infinities are outside the statement); Min/Max are not called on an empty dataset", "when fl(q*(n-1)) and the exact product lie on different sides of an integer, either neighbouring order statistic is accepted", sampleAssumption},
+	})
+}
